@@ -151,6 +151,29 @@ fn check_strategy(tree: &Tree, game: &G, strat: &S, lengths: &mut u64) -> Result
             return Err(("roundtrip-differs".into(), format!("player {} {:?} became {:?}", pl + 1, raw[pl], again[pl])));
         }
     }
+    // the view is a set of entries: listing it in another order (rotations, reversal of the infosets,
+    // reversal of every action list) is still that view and must import to the same profile
+    let lists = [listing(strat, 0), listing(strat, 1)];
+    let longest = lists[0].len().max(lists[1].len());
+    for variant in 0..=longest.min(4) {
+        let arrange = |list: &Listing| -> Listing {
+            let n = list.len();
+            if variant == 0 {
+                list.iter().rev().map(|(i, acts)| (i.clone(), acts.iter().rev().cloned().collect())).collect()
+            } else {
+                (0..n).map(|k| list[(k + variant) % n].clone()).collect()
+            }
+        };
+        let reordered = game
+            .from_named([arrange(&lists[0]), arrange(&lists[1])])
+            .map_err(|e| ("roundtrip-rejected".to_string(), format!("importing the named view with its entries in another order (variant {}) fails with {:?}", variant, e)))?;
+        let again = cfr::verif::raw_probs(&reordered);
+        for pl in 0..2 {
+            if raw[pl].len() != again[pl].len() || raw[pl].iter().zip(again[pl].iter()).any(|(a, b)| ulps(*a, *b) > 8) {
+                return Err(("roundtrip-differs".into(), format!("player {} {:?} became {:?} when the view's entries are imported in another order (variant {})", pl + 1, raw[pl], again[pl], variant)));
+            }
+        }
+    }
     let back_eq = game
         .from_named_eq(strat.as_named())
         .map_err(|e| ("roundtrip-rejected".to_string(), format!("importing the named view (eq path) fails with {:?}", e)))?;
@@ -228,6 +251,8 @@ pub fn run(ctx: &Ctx) -> i32 {
     universe_summary(ctx, &bounds, skels.len());
     let mut games: Vec<Tree> = skels.iter().map(|s| fill_distinct(s, 0)).collect();
     games.extend(families().into_iter().map(|(_, t)| t));
+    // (infosets of one player that list the same action names in different orders, and more)
+    games.extend(super::c14::permutation_games().into_iter().map(|(_, t)| t));
     games.par_iter().enumerate().for_each(|(gi, tree)| {
         if ctx.stopped() {
             return;
